@@ -16,12 +16,29 @@ import (
 
 func init() { register("C17", checkC17) }
 
-// readFullCalls returns io.ReadFull calls of fn in dominance order.
-func readFullCalls(fn *ssa.Function) []*ssa.Call {
-	var out []*ssa.Call
-	for _, in := range instrsOf(fn) {
-		if c, ok := in.(*ssa.Call); ok && isCallTo(&c.Call, "io", "ReadFull") {
-			out = append(out, c)
+// readCall is one "fill this buffer completely from the connection" step of the reader: a call of
+// io.ReadFull, or of a thin own wrapper around it; buf is the buffer being filled.
+type readCall struct {
+	*ssa.Call
+	buf ssa.Value
+}
+
+// readFullCalls returns the complete-read steps of fn and of its transparent helpers.
+func readFullCalls(fn *ssa.Function) []*readCall {
+	var out []*readCall
+	for _, in := range instrsDeep(fn) {
+		c, ok := in.(*ssa.Call)
+		if !ok {
+			continue
+		}
+		if isCallTo(&c.Call, "io", "ReadFull") {
+			out = append(out, &readCall{c, c.Call.Args[1]})
+			continue
+		}
+		if g := c.Call.StaticCallee(); g != nil && g.Blocks != nil && isHelperCall(in) == nil && ownPkgPath(pkgPathOf(g)) {
+			if idx, ok := forwardsTo(g, "io", "ReadFull"); ok && len(idx) == 2 && idx[1] >= 0 && idx[1] < len(c.Call.Args) {
+				out = append(out, &readCall{c, c.Call.Args[idx[1]]})
+			}
 		}
 	}
 	return out
@@ -90,9 +107,9 @@ func checkC17(c *Ctx) {
 		return
 	}
 	// order by dominance: prefix dominates both others
-	var prefix, topicRd, payloadRd *ssa.Call
+	var prefix, topicRd, payloadRd *readCall
 	for _, r := range rf {
-		n := bufConstLen(r.Call.Args[1])
+		n := bufConstLen(r.buf)
 		switch {
 		case n == 32:
 			topicRd = r
@@ -106,10 +123,10 @@ func checkC17(c *Ctx) {
 		c.Unk(B1, FuncName(readMsg), "three reads (prefix, topic, payload)", m.Pos(readMsg.Pos()), "cannot tell prefix/topic/payload reads apart by their buffer sizes")
 		return
 	}
-	prefixLen := bufConstLen(prefix.Call.Args[1])
+	prefixLen := bufConstLen(prefix.buf)
 	okOrder := instrDominates(prefix, topicRd) && instrDominates(prefix, payloadRd) && !blockReaches(payloadRd.Block(), topicRd.Block(), nil)
 	c.Check(okOrder, B1, FuncName(readMsg), "read order prefix → topic → payload", m.Pos(prefix.Pos()), "dominance order", "the reader does not consume prefix, topic, payload in this order")
-	prefixBuf := bufferRoot(prefix.Call.Args[1])
+	prefixBuf := bufferRoot(prefix.buf)
 	// type
 	var typeLanes, lenLanes []lane
 	var lenVal ssa.Value
@@ -119,11 +136,11 @@ func checkC17(c *Ctx) {
 			if k, isK := res[3].(*ssa.Const); isK && k.Value == nil {
 				typeLanes = lanesOf(res[0], 0)
 				// payload returned is the buffer of the payload read
-				c.Check(strip(res[2]) == strip(payloadRd.Call.Args[1]), B1, FuncName(readMsg), "returned payload is the payload read", m.Pos(r.Pos()), "same buffer", "the data returned is not the payload buffer that was filled")
+				c.Check(strip(res[2]) == strip(payloadRd.buf), B1, FuncName(readMsg), "returned payload is the payload read", m.Pos(r.Pos()), "same buffer", "the data returned is not the payload buffer that was filled")
 			}
 		}
 	}
-	if ms, ok := strip(payloadRd.Call.Args[1]).(*ssa.MakeSlice); ok {
+	if ms, ok := strip(payloadRd.buf).(*ssa.MakeSlice); ok {
 		lenVal = ms.Len
 		lenLanes = lanesOf(ms.Len, 0)
 	}
@@ -182,7 +199,7 @@ func checkC17(c *Ctx) {
 	c.Check(okLen, B1, FuncName(readMsg), "length field", m.Pos(payloadRd.Pos()), "reader: 4 bytes at prefix[1:5], same byte order as the writer's len(msg.data)", "length field disagrees: "+why)
 	// prefix size = 1 + 4 on both sides; writer's header = prefix + len(topic)
 	okPrefix := prefixLen == 5 && has0
-	for _, in := range instrsOf(send) {
+	for _, in := range instrsDeep(send) {
 		if ms, ok := in.(*ssa.MakeSlice); ok && has0 && bufferRoot(ms) == w0.Buf {
 			l := linOf(ms.Len)
 			if !(l.K == prefixLen && len(l.Terms) == 1) {
@@ -205,7 +222,7 @@ func checkC17(c *Ctx) {
 	}
 	// writer insists on 0 or 32
 	ok32 := false
-	for _, in := range instrsOf(send) {
+	for _, in := range instrsDeep(send) {
 		if iff, ok := in.(*ssa.If); ok {
 			f := factOf(Guard{iff, true})
 			if f.Op == token.NEQ || f.Op == token.EQL {
@@ -341,7 +358,7 @@ func checkC17(c *Ctx) {
 
 	// ------------------------------------------------------------------ G1
 	if lenVal != nil {
-		ms := strip(payloadRd.Call.Args[1]).(*ssa.MakeSlice)
+		ms := strip(payloadRd.buf).(*ssa.MakeSlice)
 		ok := hasFact(FactsAt(ms), func(f Fact) bool {
 			if f.Op != token.LEQ && f.Op != token.LSS {
 				return false
@@ -452,7 +469,7 @@ func checkC17(c *Ctx) {
 			if boolFact(FactsAt(p), false, func(v ssa.Value) bool { _, ok := commaOK(v); return ok }) {
 				reason = "caller contract: destination must be a configured party"
 			}
-		case fn == send:
+		case inDeep(p, send):
 			reason = "caller contract: illegal topic length / payload above 4 GiB"
 		case fn.Name() == "extractTLSBinding":
 			reason = "TLS exporter on an established TLS 1.3 connection (library contract)"
@@ -496,20 +513,24 @@ func checkC17(c *Ctx) {
 				if f.Op != token.NEQ || strip(f.X) != errv || !isNilConst(f.Y) {
 					continue
 				}
-				arm := b.Succs[0]
-				closed, cleared := false, false
-				for _, x := range arm.Instrs {
-					if c2, ok := x.(*ssa.Call); ok {
-						if o2 := calleeObj(&c2.Call); o2 != nil && o2.Name() == "Close" && isLoadOfField(c2.Call.Args[0], fConn) {
-							closed = true
-						}
+				// on the failing arm every path to the return closes the connection and clears the field
+				// (directly or through a helper that always does)
+				closed := passesOnEdge(b, 0, func(x ssa.Instruction) bool {
+					c2, ok := x.(*ssa.Call)
+					if !ok {
+						return false
 					}
-					if st, ok := x.(*ssa.Store); ok {
-						if fa, ok := st.Addr.(*ssa.FieldAddr); ok && fieldOfAddr(fa) == fConn && isNilConst(st.Val) {
-							cleared = true
-						}
+					o2 := calleeObj(&c2.Call)
+					return o2 != nil && o2.Name() == "Close" && len(c2.Call.Args) > 0 && isLoadOfField(c2.Call.Args[0], fConn)
+				})
+				cleared := passesOnEdge(b, 0, func(x ssa.Instruction) bool {
+					st, ok := x.(*ssa.Store)
+					if !ok {
+						return false
 					}
-				}
+					fa, ok := st.Addr.(*ssa.FieldAddr)
+					return ok && fieldOfAddr(fa) == fConn && isNilConst(st.Val)
+				})
 				okArm = closed && cleared
 			}
 			c.Check(okArm, O1, FuncName(fn), "failure arm of "+render(cl), m.Pos(cl.Pos()), "conn.Close() and conn = nil on the error arm", "after a failed write the broken connection is kept: the reconnect loop never re-dials and the peer stays cut off")
